@@ -278,6 +278,39 @@ func c15CheckP(c *Ctx, text string, spans []c15span, markers []string, detBase m
 			return
 		}
 	}
+	// Just before the statement is printed again, on this goroutine: the same
+	// text with a typing error in the password (an escape the language does
+	// not have), which the parser rejects half-way through the literal. What
+	// that attempt left behind must not surface in the print.
+	if len(spans) > 0 && len(markers) > 0 && mon.Hash64(text)%3 == 0 {
+		sp := spans[0]
+		typo := text[:sp.st] + "'" + markers[0] + "\\q" + markers[0] + "'" + text[sp.en:]
+		var again string
+		if p, pv, stk := mon.Try(func() {
+			ps := influxql.NewParser(strings.NewReader(typo))
+			if params != nil {
+				ps.SetParams(params)
+			}
+			_, _ = ps.ParseQuery()
+			again = q.String()
+		}); p {
+			d := det(fmt.Sprint(pv))
+			d["stack"] = stk
+			r.Violation("panic", d)
+			return
+		}
+		for _, m := range markers {
+			if strings.Contains(again, m) {
+				r.Violation("password-in-String", det("after a mistyped variant of the same text was rejected, marker "+m+" appears in String(): "+trunc(again, 300)))
+				return
+			}
+		}
+		if again != printed {
+			r.Violation("password-in-String", det(fmt.Sprintf("printed %q, and after a mistyped variant of the text was rejected %q", trunc(printed, 200), trunc(again, 200))))
+			return
+		}
+		local["printed-again-after-a-rejected-variant"]++
+	}
 	// Sanitize: everything outside the spans must be preserved, in order, and
 	// what replaces each span must not carry password material.
 	leak := ""
@@ -361,6 +394,47 @@ func checkC15(c *Ctx) (string, bool, []string) {
 		}
 		c15Check(c, replayStr(c, "input"), spans, markers, map[string]interface{}{"spans": c.Replay["spans"], "trap": c.Replay["trap"]}, local)
 		return rule, false, assume
+	}
+	// Texts with the same length and the same 32-bit checksum, one after the
+	// other in this process: (a) a text without a password clause, then a
+	// password statement; (b) a statement whose password is P, then one whose
+	// quoted user name has P's checksum. What was seen before must not stand
+	// in for what is there now.
+	{
+		local := map[string]int64{}
+		const al = "abcdefghijklmnopqrstuvwxyz0123456789"
+		for ki, kind := range mon.SumKinds {
+			sd := uint64(c.Seed) + uint64(ki)
+			headA, headB := "SELECT mean(usage) FROM cpu WHERE host = 'srv", "CREATE USER grafana WITH PASSWORD '"
+			marker := "QZKW7"
+			clean, withPw, ok := mon.CollideAB(kind,
+				func(i int) string { return headA + mon.Word(sd, i, 9, al) + "'" },
+				func(i int) string {
+					return headB + marker + mon.Word(sd+50, i, len(headA)+9-len(headB)-len(marker), al) + "'"
+				},
+				1<<20)
+			if ok {
+				_ = influxql.Sanitize(clean)
+				c15Check(c, clean, nil, nil, map[string]interface{}{"spans": []interface{}{}}, local)
+				c15Check(c, withPw, []c15span{{len(headB) - 1, len(withPw)}}, []string{marker}, map[string]interface{}{"spans": []interface{}{[]int{len(headB) - 1, len(withPw)}}}, local)
+				local["same-checksum.text-pairs"]++
+			}
+			pw, name, ok := mon.CollideAB(kind,
+				func(i int) string { return marker + mon.Word(sd+7, i, 7, al) },
+				func(i int) string { return "u" + mon.Word(sd+9, i, 11, al) },
+				1<<20)
+			if ok {
+				t1 := `CREATE USER "alice" WITH PASSWORD '` + pw + `'`
+				t2 := `CREATE USER "` + name + `" WITH PASSWORD '` + pw + `' WITH ALL PRIVILEGES`
+				t3 := `SET PASSWORD FOR "` + name + `" = '` + pw + `'`
+				for _, t := range []string{t1, t2, t3} {
+					st := strings.Index(t, "'"+pw)
+					c15Check(c, t, []c15span{{st, st + len(pw) + 2}}, []string{marker}, map[string]interface{}{"spans": []interface{}{[]int{st, st + len(pw) + 2}}}, local)
+				}
+				local["same-checksum.literal-pairs"]++
+			}
+		}
+		r.MergeCounts(local)
 	}
 	n := c.N(40000, 1000000)
 	mon.Parallel(n, c.Workers, func(i int) {
